@@ -1,0 +1,30 @@
+//go:build verif
+
+package protocol
+
+// Read-only accessors for the verification harness (build tag "verif").
+
+// VerifConsts returns the unexported metadata length-prefix constants.
+func VerifConsts() map[string]uint64 {
+	return map[string]uint64{
+		"length7Bit":      uint64(length7Bit),
+		"length15Bit":     uint64(length15Bit),
+		"lengthMask":      uint64(lengthMask),
+		"max7BitLength":   uint64(max7BitLength),
+		"max15BitLength":  uint64(max15BitLength),
+		"maxStringLength": uint64(maxStringLength),
+	}
+}
+
+// VerifUnmarshalStringLength exposes unmarshalStringLength.
+func VerifUnmarshalStringLength(data []byte) (int, uint8, error) {
+	return unmarshalStringLength(data)
+}
+
+// VerifMarshalString exposes marshalString.
+func VerifMarshalString(s string) ([]byte, bool) {
+	return marshalString(s)
+}
+
+// VerifInUnpackHeader reports the pending header object of a context.
+func (c *Context) VerifPendingHeader() interface{} { return c.buildin[ContextKeyHeader] }
